@@ -119,12 +119,31 @@ namespace detail
 		}
 	};
 
+	template<length_t L, typename T, qualifier Q, bool Signed = std::numeric_limits<T>::is_signed>
+	struct compute_findMSB_sign_vec
+	{
+		GLM_FUNC_QUALIFIER static vec<L, T, Q> call(vec<L, T, Q> const& v)
+		{
+			return v;
+		}
+	};
+
+	template<length_t L, typename T, qualifier Q>
+	struct compute_findMSB_sign_vec<L, T, Q, true>
+	{
+		// For negative values the result is the position of the most significant 0 bit
+		GLM_FUNC_QUALIFIER static vec<L, T, Q> call(vec<L, T, Q> const& v)
+		{
+			return mix(v, ~v, lessThan(v, vec<L, T, Q>(0)));
+		}
+	};
+
 	template<length_t L, typename T, qualifier Q, int>
 	struct compute_findMSB_vec
 	{
 		GLM_FUNC_QUALIFIER static vec<L, int, Q> call(vec<L, T, Q> const& v)
 		{
-			vec<L, T, Q> x(v);
+			vec<L, T, Q> x(compute_findMSB_sign_vec<L, T, Q>::call(v));
 			x = compute_findMSB_step_vec<L, T, Q, sizeof(T) * 8 >=  8>::call(x, static_cast<T>( 1));
 			x = compute_findMSB_step_vec<L, T, Q, sizeof(T) * 8 >=  8>::call(x, static_cast<T>( 2));
 			x = compute_findMSB_step_vec<L, T, Q, sizeof(T) * 8 >=  8>::call(x, static_cast<T>( 4));
